@@ -38,7 +38,10 @@ package gorm
 //@   ensures nested-disabled: sps == old(sps) ==> rbtos == old(rbtos)
 //@   ensures nested-outer-untouched: begins == old(begins) ==> commits == old(commits) && rollbacks == old(rollbacks)
 //@   ensures begin-failed: begins == old(begins) + 1 && fccalls == old(fccalls) ==> result != nil && commits == old(commits)
+//@   ensures finishes-what-it-begins: begins == old(begins) + 1 && opened == old(opened) + 1 ==> commits + rollbacks >= old(commits) + old(rollbacks) + 1
+//@   ensures nothing-to-finish-when-begin-failed: begins == old(begins) + 1 && opened == old(opened) ==> commits == old(commits) && rollbacks == old(rollbacks)
 //@   ensures-on-panic outer: begins == old(begins) + 1 ==> rollbacks == old(rollbacks) + 1 && commits == old(commits)
+//@   ensures-on-panic finishes-what-it-begins: begins == old(begins) + 1 ==> opened - old(opened) == 1
 //@   ensures-on-panic nested: begins == old(begins) && sps == old(sps) + 1 ==> rbtos == old(rbtos) + 1 && rbname == spname
 //@   ensures-on-panic nested-outer-untouched: begins == old(begins) ==> commits == old(commits) && rollbacks == old(rollbacks)
 
@@ -89,6 +92,7 @@ package gorm
 //@   ensures connpool: !config.PrepareStmt ==> result.Statement.ConnPool == db.Statement.ConnPool [C05,C04]
 //@   ensures tx-stays-tx: config.PrepareStmt && is(db.Statement.ConnPool, Tx) ==> is(result.Statement.ConnPool, *PreparedStmtTX) && result.Statement.ConnPool.(*PreparedStmtTX).Tx == db.Statement.ConnPool [C04,C05]
 //@   ensures error-kept: result.Error == db.Error [C05]
+//@   ensures statement-shared-or-fresh: result.Statement == db.Statement || fresh(result.Statement) [C06,C04]
 //@   ensures skiphooks: result.Statement.SkipHooks == (db.Statement.SkipHooks || config.SkipHooks) [C13]
 
 //@ # ---------- chain methods write only memory allocated by the call (C06) ----------
@@ -461,3 +465,24 @@ package gorm
 //@   in gorm.(*DB).UpdateColumn gorm.(*DB).UpdateColumns
 //@   min-sites 2
 //@   assert hooks-skipped: arg1.Statement.SkipHooks [C10,C13]
+
+//@ # ---------- C04: every driver transaction begun by Transaction is finished by it (finding F10) ----------
+//@ ghost opened
+//@ event invoke TxBeginner.BeginTx
+//@   do opened = opened + ite(isnil(result1), 1, 0)
+//@ event invoke ConnPoolBeginner.BeginTx
+//@   do opened = opened + ite(isnil(result1), 1, 0)
+
+//@ func (*DB).Begin
+//@   tags C04
+//@   modifies *db.cacheStore, db.Statement.ConnPool, ghost opened
+//@   ensures at-most-one-driver-begin: opened <= old(opened) + 1 && opened >= old(opened)
+//@   ensures no-transaction-without-success: result.Error != nil ==> opened == old(opened)
+//@   ensures failure-is-reported: opened == old(opened) ==> result.Error != nil
+//@   ensures context-kept: result.Statement.Context == db.Statement.Context [C18]
+//@ iface TxBeginner.BeginTx(recv, ctx, opts)
+//@   abstract database/sql.DB or a plug-in; the begun transaction lives outside gorm's memory
+//@   pure
+//@ iface ConnPoolBeginner.BeginTx(recv, ctx, opts)
+//@   abstract connection pool plug-in; the begun transaction lives outside gorm's memory
+//@   pure
